@@ -8,7 +8,6 @@ CLAIMED = {
     # id: (technique, level text, level note, design ref)
 }
 NOT_APPLICABLE = {
-    'C04': 'geodesic convexity of runtime bound regions under each space\'s interpolation: a geometric fact about runtime values, no structural rule implies or refutes it (DESIGN 5); its structural ingredients are checked under C11/C05',
     'C09': 'metric axioms over floating-point values for all pairs/triples need numeric or symbolic evaluation (a different technique family) (DESIGN 5)',
     'C10': 'shortest-path / constant-speed interpolation is a numeric statement over all state pairs and t; several claimed checks assume it and say so (DESIGN 5)',
 }
